@@ -82,7 +82,10 @@ def _vocab(min_size=1, max_size=6):
 
 
 def _utt_ids(n_min, n_max):
-    return st.lists(tx.file_ids(), min_size=n_min, max_size=n_max, unique=True)
+    # (1 name in 5 is made of the characters of the generated prefixes / suffixes, some a prefix of another)
+    name = st.one_of(tx.file_ids(), tx.file_ids(), tx.file_ids(), tx.file_ids(),
+                     st.sampled_from(["clip", "cli", "tap", "t", "a.pt", "x.t", "p_", "p_p", "u_s", "s"]))
+    return st.lists(name, min_size=n_min, max_size=n_max, unique=True)
 
 
 def _cl():
